@@ -114,6 +114,41 @@ func CrashApplyCommit(client lungo.IClient, cm CrashCommit, i int) error {
 	return err
 }
 
+// CrashApplyCommitManual performs commit i on a long-lived session with the
+// manual transaction API (StartTransaction ... CommitTransaction). A failed
+// commit is NOT followed by AbortTransaction: the session must be usable for
+// the next transaction all the same.
+func CrashApplyCommitManual(client lungo.IClient, sess lungo.ISession, cm CrashCommit, i int) error {
+	ctx := context.Background()
+	if len(cm.Steps) == 1 && cm.Steps[0].Kind == "index" {
+		return crashApplyStep(ctx, client, cm.Steps[0], i)
+	}
+	if err := sess.StartTransaction(); err != nil {
+		return fmt.Errorf("StartTransaction: %w", err)
+	}
+	var stepErr error
+	err := lungo.WithSession(ctx, sess, func(sc lungo.ISessionContext) error {
+		for _, s := range cm.Steps {
+			if s.Kind == "index" {
+				continue
+			}
+			if err := crashApplyStep(sc, client, s, i); err != nil {
+				stepErr = err
+				return nil
+			}
+		}
+		return nil
+	})
+	if err != nil {
+		return err
+	}
+	if stepErr != nil {
+		_ = sess.AbortTransaction(ctx)
+		return stepErr
+	}
+	return sess.CommitTransaction(ctx)
+}
+
 // CrashStateHash hashes the normalised dump of a catalog.
 func CrashStateHash(cat *lungo.Catalog) string {
 	return fmt.Sprintf("%x", sha1.Sum([]byte(catalogDump(cat, true))))
